@@ -125,7 +125,7 @@ func Orchestrate(prop, tier string, seed uint64, workerExe string) int {
 				cmd.Stderr = ef
 				cmd.Env = append(os.Environ(), "GOTRACEBACK=all")
 				if ck.Race {
-					cmd.Env = append(cmd.Env, "GORACE=halt_on_error=0 history_size=3 log_path="+filepath.Join(runDir, fmt.Sprintf("race.%d.%d", sh, attempt)))
+					cmd.Env = append(cmd.Env, "GORACE=halt_on_error=0 exitcode=0 history_size=3 log_path="+filepath.Join(runDir, fmt.Sprintf("race.%d.%d", sh, attempt)))
 				}
 				runErr := cmd.Run()
 				ef.Close()
